@@ -63,6 +63,7 @@ def random_seq(name):
                 k['rr_name'] = op[2]
             if op[3] is not None:
                 k['joliet_path'] = op[3]
+            k.update(op[5] if len(op) > 5 else {})
             ops.append(('add_fp', ['FILE:' + ('%d' % len(ops)).ljust(op[4], 'x')[:op[4]], op[4]], k))
         elif op[0] == 'dir':
             k = dict(iso_path=op[1])
@@ -70,11 +71,16 @@ def random_seq(name):
                 k['rr_name'] = op[2]
             if op[3] is not None:
                 k['joliet_path'] = op[3]
+            k.update(op[4] if len(op) > 4 else {})
             ops.append(('add_directory', [], k))
         elif op[0] == 'rm_file':
-            ops.append(('rm_file', [], dict(iso_path=op[1], **({'joliet_path': op[2]} if op[2] else {}))))
+            ops.append(('rm_file', [], dict(dict(iso_path=op[1], **({'joliet_path': op[2]} if op[2] else {})), **({'udf_path': op[3]} if len(op) > 3 else {}))))
         elif op[0] == 'rm_dir':
-            ops.append(('rm_directory', [], dict(iso_path=op[1], **({'joliet_path': op[2]} if op[2] else {}))))
+            ops.append(('rm_directory', [], dict(dict(iso_path=op[1], **({'joliet_path': op[2]} if op[2] else {})), **({'udf_path': op[3]} if len(op) > 3 else {}))))
+        elif op[0] == 'reopen':
+            ops.append(('REOPEN', [], {}))
+        elif op[0] == 'jfile':
+            ops.append(('add_fp', ['FILE:' + ('%d' % len(ops)).ljust(op[2], 'x')[:op[2]], op[2]], dict(joliet_path=op[1])))
         elif op[0] == 'link':
             ops.append(('add_hard_link', [], dict(iso_old_path=op[1], iso_new_path=op[2], **({'rr_name': op[3]} if len(op) > 3 else {}))))
         elif op[0] == 'jlink':
@@ -84,7 +90,7 @@ def random_seq(name):
         elif op[0] == 'rm_jlink':
             ops.append(('rm_hard_link', [], dict(joliet_path=op[1])))
         elif op[0] == 'symlink':
-            ops.append(('add_symlink', [], dict(symlink_path=op[1], rr_symlink_name=op[2], rr_path=op[3])))
+            ops.append(('add_symlink', [], dict(dict(symlink_path=op[1], rr_symlink_name=op[2], rr_path=op[3]), **({'udf_symlink_path': op[4], 'udf_target': op[3]} if len(op) > 4 else {}))))
         elif op[0] == 'hide':
             ops.append(('set_hidden', [], dict(iso_path=op[1])))
     return kw, ops
@@ -95,6 +101,7 @@ def get_seq(name):
 
 
 def apply_ops(c, iso, ops, schedule):
+    """-> the object the last edit was made on (another one than `iso` when the history writes and opens the image on the way)"""
     n = len(ops)
     rnd = None
     if schedule.startswith('random:'):
@@ -115,6 +122,12 @@ def apply_ops(c, iso, ops, schedule):
                 S.written(c, iso)
         if schedule == 'force-before-last-edit' and i == n - 1:
             S.call(c, iso, 'force_consistency')
+        if method == 'REOPEN':
+            # write the image and go on with an object that OPENED it (created in the same mode)
+            img = S.written(c, iso)
+            iso = c.new(S.PC, always_consistent=True) if schedule == 'always-consistent' else c.new(S.PC)
+            S.call(c, iso, 'open_fp', c.file(img))
+            continue
         args = [S.data_file(c, (S.BOOT if x == 'FILE:BOOT' else x[5:].encode())) if isinstance(x, str) and x.startswith('FILE:') else x for x in args]
         S.call(c, iso, method, *args, **kwargs)
         if schedule == 'force-after-every-edit':
@@ -125,6 +138,7 @@ def apply_ops(c, iso, ops, schedule):
                 pass
         elif schedule == 'write-in-the-middle' and i == n // 2:
             S.written(c, iso)
+    return iso
 
 
 @contract
@@ -142,11 +156,11 @@ class ScheduleIndependent(Base):
         a = c.a
         kw, ops = get_seq(self.seq)
         a.lazy = S.new_image(c, **kw)
-        apply_ops(c, a.lazy, ops, 'lazy')
+        a.lazy = apply_ops(c, a.lazy, ops, 'lazy')
         a.want = S.written(c, a.lazy)
         a.iso = c.new(S.PC, always_consistent=True) if self.schedule == 'always-consistent' else c.new(S.PC)
         c.call(S.PC + '.new', a.iso, **kw)
-        apply_ops(c, a.iso, ops, self.schedule)
+        a.iso = apply_ops(c, a.iso, ops, self.schedule)
         if self.schedule == 'write-twice':
             S.written(c, a.iso)
         a.out = c.file(b'')
